@@ -51,6 +51,16 @@ def spec_failures(case):
         out.append((f"C09:duplicate-internal-name:{'/'.join(kinds)}", f"generated internal names repeat: {dup[:5]}",
             {"names": dup[:20]}))
 
+    # (1b) every minted name is beyond the counter state the sequence started from (ids are never re-used)
+    import re  # pylint: disable=import-outside-toplevel
+    for i, r in enumerate(seen):
+        m = re.match(r"^(SYM|FUN|QTY|SYS|VEC|C|)(\d+)$", r["name"])
+        if m and int(m.group(2)) <= case["ids_before"].get(m.group(1), 0):
+            out.append((f"C09:ids-not-increasing:{r['kind']}", f"object #{i} got the internal name {r['name']} although the {m.group(1)!r} counter "
+                f"already stood at {case['ids_before'].get(m.group(1), 0)} before the sequence: the id was handed out before (it names an older live object)",
+                {"i": i, "counter_state": {m.group(1): case["ids_before"].get(m.group(1), 0)}, "name": r["name"]}))
+            break
+
     # (2) substitution / differentiation / solving for one object never touch another
     for r in case["algebra"]:
         ia, ix, ib, iy = r["idx"]
@@ -320,6 +330,17 @@ def replay(ctx, rep):
         ok = clone_function_example(ctx)
         print("replayed: clone inherits positivity =", ok)
         return 0 if ok else 1
+    if rep.get("key", "").startswith("C09:ids-not-increasing"):
+        from symplyphysics import Symbol, Function, Quantity  # pylint: disable=import-outside-toplevel
+        from symplyphysics.core.symbols import id_generator  # pylint: disable=import-outside-toplevel
+        (pfx, val), = (rep.get("detail") or {}).get("counter_state", {}).items()
+        id_generator._ids[pfx] = val  # pylint: disable=protected-access
+        obj = {"FUN": Function, "QTY": Quantity}.get(pfx, Symbol)()
+        nm = str(obj.name)
+        print(f"counter {pfx!r} pre-set to {val}; the next object is named {nm}")
+        again = nm[len(pfx):].isdigit() and int(nm[len(pfx):]) <= val
+        print("REPRODUCED: the id was handed out before" if again else "not reproduced on this tree")
+        return 1 if again else 0
     ops = rep.get("ops")
     if not ops:
         return 1
